@@ -251,6 +251,16 @@ func C06(c *core.Ctx) {
 			}
 		}
 	}
+	// quick: every (protocol or inferred, key-id arrangement) pair at least once, whatever the sampling above picked
+	if !c.Thorough() {
+		k := 0
+		for _, oid := range oids {
+			for _, arr := range []string{"none", "id1", "id0", "two-keys"} {
+				k++
+				add(caCase{OID: oid, ParamID: ids[(k*3)%len(ids)], Params: []string{"explicit", "named"}[k%2], KeyArr: arr, Strategy: "genuine"})
+			}
+		}
+	}
 	for st := range specRes {
 		if st == "genuine" {
 			continue
